@@ -40,8 +40,10 @@ class Result(object):
         return [ln for ln in ANSI.sub("", self.stdout).splitlines() if ln.startswith("Error:")]
 
 
-def run(args):
-    """args: list of command-line arguments WITHOUT the program name."""
+def run(args, render=False):
+    """args: list of command-line arguments WITHOUT the program name.
+    render=True: figures left open by a successful run are drawn (what showing or saving them does); an exception
+    while drawing is reported like an exception of the run, keyed <Type>@render:<innermost function>."""
     import verif.driver
     import matplotlib.pyplot as mpl
     from . import runner
@@ -58,6 +60,15 @@ def run(args):
         res.exc_key = runner.repo_frame_key(e) or ("%s@<outside-repo>" % type(e).__name__)
         res.tb = "".join(traceback.format_exception(type(e), e, e.__traceback__))[-1800:]
     res.stdout = buf.getvalue()
+    if render and res.ok:
+        try:
+            for num in mpl.get_fignums():
+                mpl.figure(num).canvas.draw()
+        except Exception as e:  # noqa
+            fr = traceback.extract_tb(e.__traceback__)[-1]
+            res.exc = e
+            res.exc_key = "%s@render:%s" % (type(e).__name__, fr.name)
+            res.tb = "".join(traceback.format_exception(type(e), e, e.__traceback__))[-1800:]
     return res
 
 
